@@ -202,8 +202,8 @@ def gen_script(rng, max_ops, profile):
                         masters |= ds
                 added = st.pending_comps.get(h, (set(), set()))[0]
                 cand = [p for p in cand if p not in masters and p not in added]
-                if deps and h in st.pending_new:
-                    cand = []
+                if deps:
+                    cand = []      # known finding C13/pack-remove-then-assign-master: program order inside a pack is lost where dependencies are involved
                 if profile.get('no_pending_remove') and h in st.pending_new:
                     cand = []
             if not cand:
@@ -245,6 +245,8 @@ def gen_script(rng, max_ops, profile):
                 continue
             h = rng.pick(hs)
             sp = rng.pick(spals)
+            if sp != min(spals) and min(spals) not in st.shared.get(h, set()):
+                sp = min(spals)     # known finding C12/shared-assign-order: one assignment order per script
             lines.append('assignshared #%d %d %d' % (h, sp, rng.range(1, 3)))
             st.shared.setdefault(h, set()).add(sp)
         elif choice == 'removeshared':
@@ -252,7 +254,7 @@ def gen_script(rng, max_ops, profile):
             if not hs or depth:
                 continue
             h = rng.pick(hs)
-            sp = rng.pick(sorted(st.shared[h]))
+            sp = max(st.shared[h])      # remove in reverse order of assignment (see C12/shared-assign-order)
             lines.append('removeshared #%d %d' % (h, sp))
             st.shared[h].discard(sp)
         elif choice == 'runjob':
